@@ -408,6 +408,10 @@ pub fn run(seed: u64, profile: &ConcProfile, replay: Option<Vec<u16>>) -> RunRep
     let started_at = runner.world.inst(0).started_at;
     let results: Arc<Mutex<BTreeMap<(usize, usize), String>>> = Default::default();
     let reads: Arc<Mutex<Vec<ReadObs>>> = Default::default();
+    // (CA, versions listed, total reported, every record has an actor)
+    #[allow(clippy::type_complexity)]
+    let history_reads: Arc<Mutex<Vec<(String, Vec<u64>, usize, bool)>>>
+        = Default::default();
     let api_done = Arc::new(AtomicUsize::new(0));
     let ca_names: Vec<String> = before_versions.keys().cloned().collect();
 
@@ -481,6 +485,49 @@ pub fn run(seed: u64, profile: &ConcProfile, replay: Option<Vec<u16>>) -> RunRep
                 }
             }),
         });
+    }
+    // Two threads that page through the command history of every CA while
+    // commands are being recorded (the history API of C07; with the
+    // history cache on they share and extend one cached list).
+    if profile.readers {
+        for h in 0..2 {
+            let (rt, hist, api_done, names) = (
+                rt.clone(), history_reads.clone(), api_done.clone(),
+                ca_names.clone()
+            );
+            specs.push(ThreadSpec {
+                name: format!("historian{h}"),
+                slow: false,
+                body: Box::new(move || {
+                    let mut rounds = 0;
+                    while rounds < 8 {
+                        rounds += 1;
+                        for name in &names {
+                            let crit = api::history::CommandHistoryCriteria
+                                ::default();
+                            if let Ok(history) = rt.ca_manager().ca_history(
+                                &handle(name), crit
+                            ) {
+                                hist.lock().unwrap().push((
+                                    name.clone(),
+                                    history.commands.iter()
+                                        .map(|c| c.version).collect(),
+                                    history.total,
+                                    history.commands.iter()
+                                        .all(|c| !c.actor.is_empty()),
+                                ));
+                            }
+                        }
+                        if api_done.load(Ordering::SeqCst) >= n_api
+                            && rounds >= 2
+                        {
+                            break
+                        }
+                        sched::switch_point("historian_round");
+                    }
+                }),
+            });
+        }
     }
     let raw_results: Arc<Mutex<Vec<String>>> = Default::default();
     let n_raw = 3usize;
@@ -798,6 +845,31 @@ pub fn run(seed: u64, profile: &ConcProfile, replay: Option<Vec<u16>>) -> RunRep
                     ),
                     step: 0,
                 });
+            }
+        }
+        // History pages read while the commands were recorded: every one
+        // lists consecutive versions, each once, and says so in its total.
+        let pages = history_reads.lock().unwrap().clone();
+        report.probes.insert("history_pages_read".into(), pages.len() as u64);
+        for (ca, listed, total, actors) in &pages {
+            let consecutive = listed.windows(2).all(|w| w[1] == w[0] + 1);
+            let to = after_versions.get(ca).copied().unwrap_or(u64::MAX);
+            if !consecutive
+                || (listed.len() < 90 && *total != listed.len())
+                || listed.last().map(|v| *v >= to).unwrap_or(false)
+                || !actors
+            {
+                violations.push(Violation {
+                    prop: "C07".into(), rule: "history_page_wrong".into(),
+                    detail: format!(
+                        "a history request for CA {ca} (which ended at \
+                         version {to}) listed versions {listed:?} with \
+                         total {total}{}",
+                        if *actors { "" } else { ", a record without actor" }
+                    ),
+                    step: 0,
+                });
+                break
             }
         }
         // Readers.
